@@ -390,3 +390,9 @@ B('normalize-identity-per-coordinate', ('secgroups', "            c = zis0.if_el
   why='selection per coordinate with temporaries (ID1 must stay silent)')
 B('normalize-identity-arith-mask', ('secgroups', "            c = zis0.if_else([field(0), field(1)], [x, y])\n", "            nz = 1 - zis0\n            c = [x * nz, y * nz + zis0]\n"),
   why='arithmetic selection instead of if_else: same values (ID1 must stay silent)')
+M('powmod-negative-not-negated', ['C23'], ('gfpx', "            a = cls._invert(a, modulus)\n            n = -n\n        b = a\n", "            a = cls._invert(a, modulus)\n        b = a\n"),
+  why='negative exponent scanned in two\'s complement after the inversion (SR1)')
+B('powmod-negative-abs', ('gfpx', "            a = cls._invert(a, modulus)\n            n = -n\n        b = a\n", "            a = cls._invert(a, modulus)\n            n = abs(n)\n        b = a\n"),
+  why='abs(n) for -n under n < 0 (SR1 must stay silent)')
+M('matrix_pow-negative-not-negated', ['C20'], (FF, "            A = np.linalg.inv(A)\n            n = -n\n", "            A = np.linalg.inv(A)\n"),
+  why='negative matrix exponent scanned in two\'s complement after the inversion (SR1)')
